@@ -3,6 +3,8 @@ package props
 import (
 	"fmt"
 	"strings"
+	"sync"
+	"sync/atomic"
 	"time"
 	"verif/census"
 	"verif/core"
@@ -166,6 +168,7 @@ func trickle(r *core.Run, ti *terminfo.Terminfo, items [][]byte, label string) {
 		wait := ls.startPoll(0x1d)
 		maxGap := time.Duration(0)
 		last := time.Now()
+		mark := lagMark()
 		for i := range b {
 			if i > 0 {
 				time.Sleep(20 * time.Millisecond)
@@ -183,7 +186,7 @@ func trickle(r *core.Run, ti *terminfo.Terminfo, items [][]byte, label string) {
 		switch {
 		case !ok:
 			r.Case("")
-		case maxGap > 40*time.Millisecond:
+		case maxGap > 40*time.Millisecond || lagged(mark):
 			r.Count("trickle_rounds_with_compromised_timing", 1)
 			r.Case("")
 		default:
@@ -196,3 +199,32 @@ func trickle(r *core.Run, ti *terminfo.Terminfo, items [][]byte, label string) {
 		}
 	}
 }
+
+// ---- scheduling-latency monitor -------------------------------------------------------------
+// Verdicts about the 50 ms escape timeout assume that goroutines run when they are runnable.
+// On a loaded machine they may be held up for tens of milliseconds, the library's own reader
+// included. One goroutine that only sleeps 2 ms at a time counts the wake-ups that came more
+// than 20 ms late; a round during which that happened is not judged.
+
+var (
+	lagOnce   sync.Once
+	lagEvents atomic.Int64
+)
+
+func lagMark() int64 {
+	lagOnce.Do(func() {
+		go func() {
+			for {
+				t0 := time.Now()
+				time.Sleep(2 * time.Millisecond)
+				if time.Since(t0) > 22*time.Millisecond {
+					lagEvents.Add(1)
+				}
+			}
+		}()
+	})
+	return lagEvents.Load()
+}
+
+// lagged reports whether goroutines were held up (> 20 ms) since the mark was taken.
+func lagged(mark int64) bool { return lagEvents.Load() != mark }
